@@ -127,7 +127,8 @@ static int mode_c13(int tier, bool exceptions) {
   long accepts = 0, rejects = 0; std::set<std::string> outcomes;
   // (a) the normaliser itself, on every string
   for (auto& s : strs) {
-    std::string t = s; MASA::masa_map(&t); n_trans++; n_states++;
+    std::string t = s; n_trans++; n_states++;
+    try { MASA::masa_map(&t); } catch (...) { viol("C13", "masa_map threw an exception on a string of length " + std::to_string(s.size()) + " (\"" + s.substr(0, 60) + "...\")", "\"input\":\"" + jesc(s.substr(0, 200)) + "\",\"level\":\"masa_map\",\"kind\":\"exception\""); continue; }
     std::string r = ref_normal(s); n_valid++;
     if (catset.count(r)) accepts++; else rejects++;
     if (t != r) viol("C13", "masa_map(\"" + s + "\") = \"" + t + "\", reference normal form is \"" + r + "\"", "\"input\":\"" + jesc(s) + "\",\"lib\":\"" + jesc(t) + "\",\"ref\":\"" + jesc(r) + "\",\"level\":\"masa_map\"");
